@@ -42,6 +42,7 @@ func runC17(p *Prog, r *Report) {
 	c17BareNames(p, r)
 	c17Exhaustive(p, r)
 	c17SiblingDecoders(p, r)
+	c17ListOrSingle(p, r)
 }
 
 func c17TypeCodec(p *Prog, r *Report) {
@@ -544,5 +545,80 @@ func c17SiblingDecoders(p *Prog, r *Report) {
 		}
 		r.Check(len(writes[n]) == 0, rule, "schema.Schema."+n+":read-only", "-", n+" does not write the receiver",
 			"Schema."+n+" writes the receiver field(s) {"+key(writes[n])+"}: a value remembered by a read-only method must be invalidated by every decoder, and concurrent calls race on it")
+	}
+}
+
+// R17.7: a production of the form `X | '[' X {',' X} ']'` parses its elements with one element parser. In every schema
+// parser method that returns a slice and branches on the opening bracket, the value-producing parser methods called in
+// the bracketed alternative are the ones called in the single alternative — otherwise a form the printer emits in only
+// one of the two shapes (a quoted single action parent) is accepted in one shape and rejected in the other.
+func c17ListOrSingle(p *Prog, r *Report) {
+	const rule = "R17.7-list-or-single"
+	n := 0
+	for _, fn := range p.Funcs {
+		if fnPkgPath(fn) != pSchemaPar || fn.Parent() != nil || fn.Signature.Recv() == nil || fn.Signature.Results().Len() != 2 {
+			continue
+		}
+		if _, isSlice := fn.Signature.Results().At(0).Type().Underlying().(*types.Slice); !isSlice {
+			continue
+		}
+		recvT := namedOf(fn.Signature.Recv().Type())
+		if len(fn.Blocks) == 0 {
+			continue
+		}
+		iff, ok := lastInstr(fn.Blocks[0]).(*ssa.If)
+		if !ok {
+			continue
+		}
+		loops := loopsOf(fn)
+		if len(loops) == 0 {
+			continue
+		}
+		bracket := fn.Blocks[0].Succs[0]
+		hasLoopIn := false
+		for _, l := range loops {
+			if bracket.Dominates(l.Header) {
+				hasLoopIn = true
+			}
+		}
+		if !hasLoopIn {
+			continue
+		}
+		_ = iff
+		inA, inB := map[string]bool{}, map[string]bool{}
+		for _, b := range fn.Blocks {
+			for _, in := range b.Instrs {
+				cl, ok := in.(ssa.CallInstruction)
+				if !ok {
+					continue
+				}
+				g := cl.Common().StaticCallee()
+				if g == nil || g.Signature.Recv() == nil || namedOf(g.Signature.Recv().Type()) != recvT || g.Signature.Results().Len() < 2 {
+					continue
+				}
+				if bracket.Dominates(b) {
+					inA[g.Name()] = true
+				} else if b != fn.Blocks[0] {
+					inB[g.Name()] = true
+				}
+			}
+		}
+		if len(inA) == 0 {
+			continue
+		}
+		n++
+		key := func(m map[string]bool) string {
+			var ks []string
+			for k := range m {
+				ks = append(ks, k)
+			}
+			sort.Strings(ks)
+			return strings.Join(ks, ",")
+		}
+		r.Check(key(inA) == key(inB), rule, fnQual(fn), p.pos(fn.Pos()), "both alternatives parse their elements with {"+key(inA)+"}",
+			fnShort(fn)+" parses the elements of the bracketed list with {"+key(inA)+"} but the single element with {"+key(inB)+"}: what is accepted inside brackets is not what is accepted without them, and the printer chooses between the two shapes by the number of elements")
+	}
+	if n < 2 {
+		r.Undec(rule, "schemaparser:list-or-single", "-", "expected at least two list-or-single productions, found "+itoa(n))
 	}
 }
